@@ -615,6 +615,17 @@ impl<'a> Searcher<'a> {
                     .unwrap_or(false)
             });
 
+        // Mercurial does not enter an ignored directory either, so a search root below one is
+        // ignored as a whole (a pattern ending in `$` matches the directory, not the paths below it)
+        if apply_hgignore
+            && root_depth == 0
+            && Path::new(&canonical_path).ancestors().any(|ancestor| {
+                matches_hgignore_filter(&self.hgignore_filters, ancestor.to_string_lossy().as_ref())
+            })
+        {
+            return Ok(());
+        }
+
         let canonical_depth = crate::util::calc_depth(&canonical_path);
 
         let base_depth = match root_depth {
